@@ -2,7 +2,7 @@
     vector that the specification allows decodes to that field vector; the
     serializer's layout (pending nulls, trailing-field elision) is one of them. *)
 From FV Require Import Base.Bytes Codec.Value Codec.Enc Codec.Dec Codec.Composite.
-From FV Require Import Proofs.BytesProofs Proofs.RoundTripScalars Proofs.RoundTrip.
+From FV Require Import Proofs.BytesProofs Proofs.RoundTripScalars Proofs.RoundTrip Codec.Size Proofs.SizeProofs.
 From Coq Require Import Lia ZArith ZifyN ZifyBool ZifyNat.
 Ltac Zify.zify_post_hook ::= Z.div_mod_to_equations.
 Open Scope N_scope.
@@ -300,4 +300,15 @@ Proof.
   - destruct (s_code s =? s_code t) eqn:E.
     + apply N.eqb_eq in E. exfalso. apply Hnotin. rewrite <- E. apply in_map. exact Hin.
     + apply IH; auto.
+Qed.
+
+(** ** the size serializer agrees with the serializer on composites *)
+Theorem composite_size_is_length s vs :
+  forallb no_described_elems vs = true ->
+  agree (size_composite Plain s vs) (enc_composite Plain s vs).
+Proof.
+  intros H. unfold size_composite, enc_composite. apply size_agrees; [|left; reflexivity].
+  cbn [no_described_elems]. apply forallb_forall. intros w Hin.
+  destruct (elide_elems _ _ _ _ Hin) as [-> |Hin']; [reflexivity|].
+  rewrite forallb_forall in H. auto.
 Qed.
